@@ -51,6 +51,11 @@ def _variant(kids, fn):
     return c
 
 
+def documented_use(case):
+    """buffer="false" only on bodies with at most one select() (the documentation requires buffering otherwise)"""
+    return all(t.get('buffer', True) or G.body_nsel(t['body']) <= 1 for t in G.case_templates(case))
+
+
 def positional(case):
     return any(G.path_has_pos(t['match']) for t in G.case_templates(case))
 
@@ -165,9 +170,12 @@ def gen_oracle_case(rng):
 def gen_corr_case(rng):
     """cases for the model: paths of the two modelled strategies, positional predicates included"""
     c = G.rand_case(rng, hints=True, pos=rng.random() < 0.4, late=0.2, gen_markup=0.2, kinds=('single', 'simple'), maxsel=2)
-    for t in G.case_templates(c):
-        if not t['buffer'] and G.body_nsel(t['body']) > 1:
-            G.set_hints(t, buffer=True)
+    if rng.random() < 0.7:
+        # mostly inside the documented use of buffer="false" (one select); the rest checks that the model
+        # also follows the code when a second select() finds the lazily consumed content exhausted
+        for t in G.case_templates(c):
+            if not t['buffer'] and G.body_nsel(t['body']) > 1:
+                G.set_hints(t, buffer=True)
     return c
 
 
@@ -213,7 +221,7 @@ def compare(cases, res, stream, verb='run'):
             real = ['ok', [[str(x[0]), x[1]] for x in real[1]]]
         res.streams[stream] = res.streams.get(stream, 0) + 1
         hits = m.pop() if m[0] == 'ok' else None
-        if hits is not None and not positional(cases[i]):
+        if hits is not None and not positional(cases[i]) and documented_use(cases[i]):
             # the model's ghost hit counters against the independent reference's firing counts
             ref, fired = G.reference(cases[i])
             if ref[0] == 'ok':
